@@ -30,6 +30,20 @@ PROPS = {
         ],
         "assumptions": ["an evaluation performs fewer than 2^64 consecutive tail calls / nested frames (usize counters)"],
     },
+    "C06": {
+        "level": "other",
+        "explanation": "Narrow claim on the hand-written forwarding code. Almost all propagation in the crate is `?` on RuntimeResult and the early-return macros, which the type system makes impossible to skip. Decided here by Verus contracts on real text: the macros xraise!/forward_err! return the error they receive; the search-budget closure of XGenerator::iter lets the budget's violation win and otherwise returns the element unchanged; the element closures of the adaptors Aggregate, Filter, TakeWhile, SkipUntil hand on a violation of the incoming element and a violation or error value answered by the user callback, unchanged and never as None. Decided by enumeration: every function of the crate that inspects a Result's failure case other than by `?`/macros is listed with its classification (documented handler, library-error conversion, forwarding arm with pinned text), with the number of sites pinned. NOT decided: leftmost-error order of constructions (std collect semantics), that a user function yields an unused erroring argument, that collections never contain errors, the other adaptors (SuccessorsUntil, Map, Zip, Group, Windows, WithCount, Product).",
+        "units": [
+            {"kind": "verus", "unit": "fwd"},
+            {"kind": "scan", "spec": "inspect_sites"},
+        ],
+        "unreached": [
+            "leftmost-error order in construction / argument evaluation (runtime_scope.rs: std's collect on nested Results)",
+            "user-function call path: whether an erroring argument that the body never uses is propagated",
+            "the adaptors SuccessorsUntil, Map, Zip, Group, Windows, WithCount, Product of XGenerator::_iter; mapping/set/sequence insertion natives",
+        ],
+        "assumptions": ["the user callback is represented by a ghost log of its answer (stub contract of eval_func_with_values)"],
+    },
     "C07": {
         "level": "proof",
         "units": [
@@ -172,6 +186,12 @@ CLAIMS = {
         "text": "Each limit primitive of src/runtime.rs is checked against its one-step contract for every value of the counter and of the limit (loop-free harness over full-width symbolic scalars = complete proof of that function's contract); the trampoline is proved to count the user call and check the timeout exactly once before any frame is built and to fail with MaximumRecursion exactly when the tail-call count exceeds the limit; the frame height and the depth test are proved as stated.",
         "note": "Decides the counters and their reset only; that every call path goes through them is argued from visibility, not proved. Trusted: Kani/CBMC, the in-crate build substitutions.",
     },
+    "C06": {
+        "engine": "vx+verus",
+        "technique": "contract-based deductive verification: Verus contracts on the real early-return macros and on the forwarding prefixes of generator adaptor closures (ghost log of the callback's answer); enumeration of every Result-inspection site",
+        "text": "Narrow (the hand-written forwarding code only): xraise!/forward_err!, the search-budget closure and four adaptor closures are proved to hand on, unchanged and never as a value or None, every violation and error value they receive; all other places that inspect a failure case are enumerated and classified, with site counts and forwarding arms pinned.",
+        "note": "Level `other`: one mechanism of a broad property. Leftmost order, unused erroring arguments of user functions, collections never containing errors and seven further adaptors are listed as unreached.",
+    },
     "C07": {
         "engine": "vx+verus",
         "technique": "contract-based deductive verification: Verus contract with a ghost call history on the real text of the trampoline; Verus preconditions on skeletons (R-skel) of the tail-flag carriers and of the evaluator's Call arm; site enumeration of the flag's uses",
@@ -235,7 +255,6 @@ _NA = {
 }
 NOT_APPLICABLE = dict(_NA)
 NOT_APPLICABLE.update({
-    "C06": "propagation is `?`/early-return macros enforced by Rust's types; the hand-written forwarding code (element closures of XGenerator::_iter's adaptors) sits inside iterator adaptor calls with dyn-Any downcast macros, Result::and_then closures and nested collect: outside Verus' dialect without a hand-tuned rewrite per closure, and behind the evaluator for Kani (DESIGN.md section 6)",
     "C18": "measured: the smallest Kani harness on FencedString::from_string (<= 2 chars) exhausted 65 GB in CBMC (String / char_indices); Verus has no byte-level str reasoning for the dual representation (buffer[start_byte..end_byte], char_starts) -- no contract within reach can state the invariant (DESIGN.md section 6)",
 })
 for _p in list(NOT_APPLICABLE):
